@@ -321,7 +321,7 @@ def run(ctx):
                         'Koyama and NFJC weights are the models own kernels: structure, limits, bound and totality are judged, not the kernel formula',
                         'k -> 0 judged at the smallest k of the logarithmic family (1e-4) with slack (k*scale)^2*N; k -> infinity at 1e3 with slack 4/(k*scale)']
     objns = [2, 3, 10, 100, 10000] if not thorough else [2, 3, 7, 10, 33, 100, 1000, 10000]
-    res = run_tlc('MC_OmegaModels', cfg(12 if thorough else 8, objns), ctx.tmp, seed=ctx.seed, timeout=3000)
+    res = run_tlc('MC_OmegaModels', cfg(10 if thorough else 8, objns), ctx.tmp, seed=ctx.seed, timeout=3000)
     require_clean(res, 'OmegaModels')
     ctx.add_tlc('OmegaModels', res, exhaustive=True)
     terms = res.records['INFO'][0]['terms']
